@@ -84,7 +84,9 @@ def source_flags():
     nl = bool(re.search(r"fn\s+append_rule_block", gi)) and "unterminated" in gi
     mv = rd("file/src/mv/mod.rs")
     p5 = "update_file_gitignores" in mv
-    return {"fixed_P17": p17, "fixed_nl": bool(nl), "fixed_P5": p5}
+    # repo-patches/59 (C19): a move whose source is absent rechecks the destination instead of failing in fs::rename
+    mv_absent = bool(re.search(r"if\s+!source_path\.exists\(\)", mv))
+    return {"fixed_P17": p17, "fixed_nl": bool(nl), "fixed_P5": p5, "fixed_move_absent": mv_absent}
 
 
 def flag_str(fl, **over):
@@ -107,7 +109,8 @@ def gen_pattern(rng):
         if k < 0.6:
             return rng.choice(["*", "*.t", "a*", "*b", "?", "a?", "*.dat", "a.*", "?.t", "**"])
         if k < 0.7:
-            return rng.choice(["a**", "**b", "*a*", "a**t"])
+            # (`**` glued to other characters is outside the grammar: one such line in 40)
+            return rng.choice(["*a*", "a*t", "*.*", "a**"] if rng.random() < 0.1 else ["*a*", "a*t", "*.*"])
         return rng.choice(NAMES)
     k = rng.random()
     if k < 0.05:
@@ -144,12 +147,12 @@ def gen_ref_group(rng):
     return {"files": files, "paths": fpaths}
 
 
-def ref_vs_git(chk, model, n_groups):
+def ref_vs_git(chk, model, n_groups, groups=None):
     base = C.scratch_dir("c16ref")
     env = dict(C.BASE_ENV)
     env.update({"HOME": base, "XDG_CONFIG_HOME": os.path.join(base, ".config"), "GIT_CONFIG_NOSYSTEM": "1"})
-    groups = [gen_ref_group(chk.rng) for _ in range(n_groups)]
-    dist = {"groups": n_groups, "cases": 0, "ignored": 0, "dir_cases": 0, "negation_lines": 0, "nested_files": 0, "unterminated": 0}
+    groups = groups or [gen_ref_group(chk.rng) for _ in range(n_groups)]
+    dist = {"groups": len(groups), "cases": 0, "ignored": 0, "dir_cases": 0, "negation_lines": 0, "nested_files": 0, "unterminated": 0}
     lines, meta = [], []
     try:
         def one(ig):
@@ -158,6 +161,9 @@ def ref_vs_git(chk, model, n_groups):
             os.makedirs(root)
             subprocess.run(["git", "init", "-q", root], env=env, stdout=subprocess.DEVNULL, stderr=subprocess.DEVNULL)
             for p in g["paths"]:
+                if g.get("as_dir"):
+                    os.makedirs(os.path.join(root, p, "zz"), exist_ok=True)
+                    continue
                 os.makedirs(os.path.dirname(os.path.join(root, p)), exist_ok=True)
                 open(os.path.join(root, p), "w").close()
             for d, txt in g["files"].items():
@@ -165,7 +171,9 @@ def ref_vs_git(chk, model, n_groups):
                 with open(os.path.join(root, d, ".gitignore"), "w") as fh:
                     fh.write(txt)
             dirs = sorted({"/".join(p.split("/")[:k]) for p in g["paths"] for k in range(1, len(p.split("/")))})
-            q = list(g["paths"]) + dirs      # a directory is asked for WITHOUT a final slash (Git sees its type on disk)
+            if g.get("as_dir"):
+                dirs = sorted(set(dirs) | set(g["paths"]))
+            q = [p for p in g["paths"] if p not in dirs] + dirs      # a directory is asked for WITHOUT a final slash (Git sees its type on disk)
             pr = subprocess.run(["git", "check-ignore", "--stdin"], cwd=root, env=env, input="\n".join(q) + "\n",
                                 text=True, stdout=subprocess.PIPE, stderr=subprocess.PIPE)
             got = set(pr.stdout.split("\n"))
@@ -313,6 +321,9 @@ def snapshot(root):
                     gis[rel] = open(e.path, "rb").read()
                 except OSError:
                     gis[rel] = None
+                # xvc tracks a .gitignore that is not in the Git index like any other file: it can be a file target
+                st = e.stat(follow_symlinks=False)
+                ident[r] = (st.st_ino, 0, stat.S_IFMT(st.st_mode), 0, st.st_nlink)
             else:
                 st = e.stat(follow_symlinks=False)
                 ident[r] = (st.st_ino, st.st_mtime_ns, stat.S_IFMT(st.st_mode), st.st_size, st.st_nlink)
@@ -366,9 +377,32 @@ def canon_suffix(b):
     return out
 
 
+class Overloaded(Exception):
+    """the machine is too slow right now (an xvc invocation exceeded its generous timeout): not a verdict"""
+
+
+def new_repo(xvc, prefix):
+    """a Git repository with `xvc init` done; retried when the only problem is a timeout"""
+    last = None
+    for attempt in range(3):
+        rp = XvcRepo(xvc, prefix=prefix, git=True, init=False)
+        r = rp.xvc("init", timeout=300)
+        if not r.failed:
+            return rp
+        rp.cleanup()
+        last = r
+        if not r.timed_out:
+            raise RuntimeError("xvc init failed: rc=%s %s" % (r.rc, (r.err or r.out)[-400:]))
+    raise Overloaded("xvc init timed out three times")
+
+
 def run_scenario(xvc, sc, flags, model):
-    """runs a scenario on the real binary; returns the list of per-command observations"""
-    rp = XvcRepo(xvc, prefix="c16", git=True)
+    """runs a scenario on the real binary; returns the list of per-command observations (cut short, with the
+    last entry marked, when the machine is too loaded for an invocation to finish in time)"""
+    try:
+        rp = new_repo(xvc, "c16")
+    except Overloaded:
+        return [{"overloaded": True}]
     obs = []
     try:
         for p, h in sc["files"].items():
@@ -395,7 +429,10 @@ def run_scenario(xvc, sc, flags, model):
                         C.rm_rf(rp.path(".xvc", cd))
             gis0, dirs0, id0 = snapshot(rp.root)
             argv = [os.path.join(rp.base, "storage") if a == "@STORAGE" else a for a in cmd["argv"]]
-            r = rp.xvc(*argv)
+            r = rp.xvc(*argv, timeout=300)
+            if r.timed_out:
+                obs.append({"overloaded": True})
+                return obs
             gis1, dirs1, id1 = snapshot(rp.root)
             kind = argv[1] if argv[0] == "file" else argv[0]
             o = {"ci": ci, "kind": kind, "argv": cmd["argv"], "failed": bool(r.failed), "panicked": bool(r.panicked),
@@ -413,6 +450,7 @@ def run_scenario(xvc, sc, flags, model):
             if kind in IGNORE_KINDS:
                 tracked, lr = tracked_paths(rp)
                 o["tracked"] = tracked
+                o["absent"] = [q for q in tracked if not os.path.lexists(rp.path(q))]
                 if tracked:
                     pr = subprocess.run(
                         ["git", "-c", "core.quotepath=off", "check-ignore", "--stdin", "-z"], cwd=rp.root, env=dict(C.BASE_ENV, **rp.env),
@@ -560,6 +598,8 @@ def classify(model, flags, o, path, mo, history):
     if mo is None:
         return None
     bits = mo["bits"].get(path)
+    if bits is None and history.get(("born_in_failure", path)):
+        return "record-left-by-failed-command"
     if bits is None:
         # not handled by this command: ignored before, not after?
         prev = history.get(path)
@@ -606,6 +646,9 @@ def judge(chk, model, flags, sc, obs, dist, reported, corpus_name=None, quiet=Fa
     rc, out = C.run_lines(model, lines) if lines else (0, [])
     outs = iter(out)
     found = []
+    if obs and obs[-1].get("overloaded"):
+        dist["cut_short_by_timeouts"] = dist.get("cut_short_by_timeouts", 0) + 1
+        obs = obs[:-1]
     for o in obs:
         dist["commands"][o["kind"]] = dist["commands"].get(o["kind"], 0) + 1
         dist["failed_commands"] += o["failed"]
@@ -662,6 +705,12 @@ def judge(chk, model, flags, sc, obs, dist, reported, corpus_name=None, quiet=Fa
                             chk.fail("correspondence", "reference semantics says ignored=%s for %r after `xvc %s`, git check-ignore says %s" % (ig, p, " ".join(o["argv"]), real_ig),
                                      {"theorem_or_correspondence": "Gitignore.Model.ignored vs git check-ignore (scenario)", "scenario": sc, "command_index": o["ci"],
                                       "model_line": o["model_line"]}, name="refscn", has_input=False)
+        # a path first recorded by a command that failed (error or panic) and never materialised it
+        for p in o["tracked"]:
+            if p not in history and ("seen", p) not in history:
+                history[("seen", p)] = True
+                if o["failed"] and p in o.get("absent", []):
+                    history[("born_in_failure", p)] = True
         # oracle 2 and 3
         bad = sorted(set(o["not_ignored"]) | set(o["staged"]))
         for p in bad:
@@ -775,10 +824,10 @@ def load_corpus():
 
 
 def scenarios(chk, xvc, model, flags, replay=None):
-    n = 46 if chk.tier == "quick" else 520
+    n = 60 if chk.tier == "quick" else 520
     items = []
     if replay:
-        items.append(("replay", {"input": replay["input"], "expect": None}))
+        items.append(("replay", {"input": replay.get("input") or replay.get("scenario"), "expect": None}))
     else:
         items += load_corpus()
         for i in range(n):
@@ -795,9 +844,10 @@ def scenarios(chk, xvc, model, flags, replay=None):
         results = list(ex.map(lambda it: run_scenario(xvc, it[1]["input"], flags, model), items))
     reported = {"n": 0, "corr": 0, "by_class": {}}
     for (name, it), obs in zip(items, results):
+        cut = bool(obs and obs[-1].get("overloaded"))
         found = judge(chk, model, flags, it["input"], obs, dist, reported, corpus_name=name, xvc=xvc)
         exp = it.get("expect")
-        if name and name != "replay" and exp is not None:
+        if name and name != "replay" and exp is not None and not cut:
             got = sorted({k for _, _, _, k in found if k})
             # a witness of an open finding must still reproduce its class (the class predicate and the defect are alive);
             # a witness of a fixed finding must be clean -- any failure there was reported above without a matching open class
@@ -816,8 +866,14 @@ def flags_fix(flags, klass):
 def init_content_check(chk, xvc, model):
     """the rendered initial rules of the model (from Gen/GitignoreInitial.v) are the rule lines a real init writes"""
     rc, out = C.run_lines(model, ["init"])
-    with XvcRepo(xvc, prefix="c16init", git=True) as rp:
+    try:
+        rp = new_repo(xvc, "c16init")
+    except Overloaded:
+        return {"skipped": "machine overloaded"}
+    try:
         real = rp.read(".gitignore") or b""
+    finally:
+        rp.cleanup()
     real_rules = [l for l in real.split(b"\n") if l.strip() and not l.startswith(b"#")]
     mod_rules = [l for l in bytes.fromhex(out[0]).split(b"\n") if l] if out and re.fullmatch(r"[0-9a-f]*", out[0]) else None
     if mod_rules != real_rules:
@@ -853,8 +909,14 @@ def run(chk, replay=None):
         chk.cov["distribution"] = dist
         return
     dist["init"] = init_content_check(chk, xvc, model)
+    if replay and "files" in replay and "path" in replay and not (replay.get("input") or replay.get("scenario")):
+        # a reference-semantics replay: the one (files, path) case again
+        dist["reference_vs_git"] = ref_vs_git(chk, model, 1, groups=[{"files": replay["files"], "paths": [replay["path"].rstrip("/")],
+                                                                      "as_dir": replay["path"].endswith("/")}])
+        chk.cov["distribution"] = dist
+        return
     if not replay:
-        dist["reference_vs_git"] = ref_vs_git(chk, model, 70 if chk.tier == "quick" else 1500)
+        dist["reference_vs_git"] = ref_vs_git(chk, model, 100 if chk.tier == "quick" else 1500)
     dist["histories"] = scenarios(chk, xvc, model, flags, replay)
     chk.cov["distribution"] = dist
     if any(f.kind == "oracle" and not known_class(f.klass) for f in chk.failures):
